@@ -27,7 +27,7 @@ def model_checks(tier):
                              'FALSE, TRUE', 'TRUE', 'FALSE', invs=False)),
             # the smallest bags under every count width and offset width (header length checks are tightest here)
             dict(name='enc1_g', module='MC_Boc.tla', gen=True, workers=4, timeout=1500,
-                 cfg=boc_cfg(1, [0, 9], '{}', [1, 2, 3, 4], [1, 2, 8], 'FALSE, TRUE', 'TRUE', 'FALSE', invs=False)),
+                 cfg=boc_cfg(1, [0, 9, 1016, 1017, 1023], '{}', [1, 2, 3, 4], [1, 2, 8], 'FALSE, TRUE', 'TRUE', 'FALSE', invs=False)),
             dict(name='enc3_g', module='MC_Boc.tla', gen=True, workers=8, timeout=1500,
                  cfg=boc_cfg(3, [1] if q else [1, 8], '{"pruned"}' if q else X3, [1], [2], 'FALSE, TRUE', 'TRUE', 'FALSE', invs=False, maxrefs=2)),
             dict(name='boc_m', module='MC_Boc.tla', workers=16, timeout=1500,
